@@ -539,6 +539,8 @@ WIRINGS = {
                         (_H, ["z"], "w", None, {"z": 3}, None)], [(0, 1, "elementwise"), (2, 3, "reduce")]),
         "reduce-direct": ([(_F, ["x"], "y", 0, {}, "x[i] -> y[i]"), (_G, ["y"], "z", 2, {"y": 1}, None),
                            (_H, ["z"], "w", None, {"z": 3}, None)], [(0, 1, "reduce"), (2, 3, "direct")]),
+        "generated-map": ([(_F, ["x"], "y", 0, {}, None), (_G, ["y"], "z", 2, {"y": 1}, "y[i] -> z[i]"),
+                           (_H, ["z"], "w", None, {"z": 3}, "z[i] -> w[i]")], [(0, 1, "generated"), (2, 3, "elementwise")]),
         "map-partial": ([(_F, ["x", "v"], "y", 0, {}, "x[i], v[j] -> y[i, j]"), (_G, ["y"], "z", 2, {"y": 1}, "y[i, j] -> z[i, j]"),
                          (_H, ["z"], "w", None, {"z": 3}, "z[i, :] -> w[i]")], [(0, 1, "elementwise"), (2, 3, "reduce")]),
     },
@@ -580,6 +582,10 @@ def _is_array_tree(t) -> bool:
 def edge_verdict(src, dst, kind):
     """Reference verdict of one edge; a reduction makes the consumer see Array[src]."""
     eff = src
+    if kind == "generated":
+        # the producer has no MapSpec and gets an auto-generated "... -> y[i]": pipefunc cannot check this edge (its own
+        # note in the source) - unconstrained; the OTHER edges of the pipeline must still be checked
+        return UNC, "auto-generated-mapspec", src
     if kind == "reduce" and src != NOANN:
         if _is_array_tree(src):
             return UNC, "array-output-reduced", src
